@@ -168,6 +168,23 @@ def discharge(ob: Obligation, ex, rlimit=RLIMIT):
             if out == "sat":
                 ob.status, ob.backend = "refuted", name
                 break
+        if ob.status == "unknown" and "timeout" in str(ob.model) or ob.status == "unknown" and "canceled" in str(ob.model):
+            # the wall-clock guard fired (machine load), not the deterministic rlimit: one more attempt with four times
+            # the wall budget, so that verdicts do not flip when all cores are busy
+            s2 = z3.Solver()
+            s2.set("rlimit", rlimit)
+            s2.set("timeout", 4 * TIMEOUT_MS)
+            s2.set("random_seed", 7)
+            s2.from_string(smt)
+            r2 = s2.check()
+            if r2 == z3.unsat:
+                ob.status, ob.backend = "discharged", "z3-%s(retry)" % z3.get_version_string()
+            elif r2 == z3.sat:
+                ob.status, ob.backend = "refuted", "z3-%s(retry)" % z3.get_version_string()
+                try:
+                    ob.model = s2.model()
+                except z3.Z3Exception:
+                    pass
     ob.time = time.time() - t0
     return ob
 
